@@ -472,7 +472,8 @@ func (g *c07Gen) stmts(depth int, vis []string) []*mj.Node {
 			if body[0].K == "yield" {
 				g.p.Files[len(g.p.Files)-1].Imports = []string{"/lib.jet"}
 			}
-			out = append(out, mj.Text("(sw:"), mj.Print(mj.Call("isset", mj.Chain(mj.Call("exec", mj.Str(path)), "x"))), mj.Text(")"))
+			asker := []string{"isset", "given"}[g.n(0, 1, "swAsker")] // the built-in, or a Go function asking Arguments.IsSet
+			out = append(out, mj.Text("(sw:"), mj.Print(mj.Call(asker, mj.Chain(mj.Call("exec", mj.Str(path)), "x"))), mj.Text(")"))
 			out = append(out, g.probes(vis)...)
 			g.labels["read-after-failure-swallowed-by-isset:"+body[0].K] = true
 		default:
@@ -591,7 +592,7 @@ func judgeC07(c c07Case) (v core.Verdict) {
 
 func TestC07(t *testing.T) {
 	core.Run(t, "C07",
-		"programs over local names a,b,c plus names that exist as Execute variable, global, both and built-in: :=, =, multi-assignment, discard, prints, isset and '.' probes nested (depth<=5) in if (with declaring header)/range (all forms, := and =)/block (with/without parameters and context)/yield-with-content/include (with/without context, name and context read from the dot of a range)/try, globals added to the Set by Go code the running template calls, isset() of a template executed for the answer that fails inside range / if-let / block-with-context / yield content, and the capture idiom over slices, interface slices, arrays, maps, channels, ints(), indexed and index-less custom Rangers; oracle = MiniJet reference interpreter (expected output or expected failure) and the caller's VarMap after Execute; non-trivial = a probe after a construct that declared or shadowed names, or a capture from a loop variable",
+		"programs over local names a,b,c plus names that exist as Execute variable, global, both and built-in: :=, =, multi-assignment, discard, prints, isset and '.' probes nested (depth<=5) in if (with declaring header)/range (all forms, := and =)/block (with/without parameters and context)/yield-with-content/include (with/without context, name and context read from the dot of a range)/try, globals added to the Set by Go code the running template calls, isset() of a template executed for the answer that fails inside range / if-let / block-with-context / yield content, and the capture idiom over slices, interface slices, arrays, maps, channels, ints(), indexed and index-less custom Rangers; round 10: isset() also asked through a Go function that calls Arguments.IsSet; oracle = MiniJet reference interpreter (expected output or expected failure) and the caller's VarMap after Execute; non-trivial = a probe after a construct that declared or shadowed names, or a capture from a loop variable",
 		genC07, judgeC07)
 }
 
